@@ -39,6 +39,14 @@ CLAIMED = {
          'deterministic simulation with fault injection: one transport fault or poison message per run, swept over every seam-event position of fault-free base runs and drawn randomly; seeded schedule search (incl. starvation of the shutdown watcher); cause oracle',
          'For each base run the fault (9 kinds: send error, receive error, peer close, 6 poison messages) is placed at every seam event (tx / peer push / delivery); on top of that seeded search over 29 fault kinds, positions and schedules. Oracle: no library panic, no operation left pending, every failed operation and on_disconnect carry the injected cause and never the placeholder, streams end, is_connected false. Positions are enumerated per base run; schedules and base runs are sampled.',
          'A task poll is atomic; one fault per run; overflow-checks on (as in a debug build); scripted peer.'),
+ 'C10': ('fault_enumeration', 'srvsim', 'DESIGN.md §8 C10',
+         'deterministic simulation with fault injection: stop() placed before every step of stop-free base histories and at drawn steps; real Server::start on a simulated listener (hook H4) or TowerService per connection; seeded schedules; answered/stopped oracle over stamped events',
+         'Histories of WebSocket / HTTP calls with drawn handler latency, subscriptions and peer disconnects on 0-4 connections; stop() is swept over every step of base histories and drawn randomly; second stop(). Oracle: every call whose handler start is logged is answered to a peer that kept reading; when stopped() resolves every server-side stream has already been dropped; no handler starts afterwards (a late connection is tried); stopped() resolves and the run reaches quiescence; no library panic. Stop positions enumerated per base history; histories and schedules sampled.',
+         'A task poll is atomic; peers never stall mid-request.'),
+ 'C11': ('fault_enumeration', 'srvsim', 'DESIGN.md §8 C11',
+         'deterministic simulation with fault injection: open/close/abort histories with aborts at lifecycle steps (incl. reset in the middle of the upgrade handshake under a bounded stream buffer) against limits 0-3; one-sided slot model over stamped events; refill phase after every history',
+         'Seeded histories of {open WebSocket, HTTP call with handler latency, graceful close, abrupt reset, reset mid-handshake, refused upgrade} on Server::start (simulated listener) or TowerService per connection; an attempt admitted while the model has max sessions definitely open, or refused with 429 after everything earlier has definitely finished (stream gone and system idle since), is a violation; after every history max sessions must be admissible again and the (max+1)-th refused with 429; refused HTTP calls run no handler. Histories and schedules sampled; the refill phase is deterministic per history.',
+         'A task poll is atomic; slot model one-sided (documented in DESIGN.md).'),
  'C12': ('exploration', 'clisim', 'DESIGN.md §8 C12',
          'deterministic simulation: seeded scheduler; scripted peer / harness HTTP backend replying with permuted, short, duplicated, foreign and mixed batch replies; positional oracle shared by both clients',
          'Seeded search over batch sizes 1-6, several batches and calls in flight, both id kinds, reply shapes (permutation / subset / duplicate / foreign id / two batches mixed) for the async (WebSocket-style) client and the HttpClient; every returned entry must be attributable to a reply element with exactly that id, list length and counters must match the request. Sampling, not enumeration.',
